@@ -200,8 +200,8 @@ impl Property for C09 {
     }
     fn budget(&self, tier: Tier) -> (u32, u32) {
         match tier {
-            Tier::Quick => (1500, 8),
-            Tier::Thorough => (25000, 16),
+            Tier::Quick => (6000, 8),
+            Tier::Thorough => (200000, 16),
         }
     }
     fn required_counters(&self) -> Vec<&'static str> {
@@ -415,22 +415,30 @@ fn unbounded_depth(t: &Tok) -> bool {
 /// open tokens); a *nested* concatenation whose scan takes nothing (its last token bounds the
 /// text) is what wax turns into a zero term and then treats as transparent — widen it to `*`.
 pub fn widen_tail(e: &Expr) -> Expr {
-    fn go(e: &Expr, nested: bool) -> Expr {
+    // `nested`: the concatenation is a branch / body; `rep_body`: it is the body of a repetition
+    fn go(e: &Expr, nested: bool, rep_body: bool) -> Expr {
         let mut out = e.clone();
         let mut i = e.len();
-        let mut first = true;
         while i > 0 {
             i -= 1;
             match &e[i] {
                 t if t.is_branch() => {
                     out[i] = match t {
-                        Tok::Alt(bs) => Tok::Alt(bs.iter().map(|b| go(b, true)).collect()),
+                        Tok::Alt(bs) => Tok::Alt(bs.iter().map(|b| go(b, true, false)).collect()),
                         Tok::Rep { body, lo, hi, spell } => {
-                            Tok::Rep { body: go(body, true), lo: *lo, hi: *hi, spell: *spell }
+                            Tok::Rep { body: go(body, true, true), lo: *lo, hi: *hi, spell: *spell }
                         },
                         _ => unreachable!(),
                     };
                     if !open_tok(t) {
+                        // the scan stops after this branch.  In a repetition body whose scanned
+                        // part keeps a may-be-exhaustive sum, the unscanned head is ignored and
+                        // the repetition then multiplies the whole body: the head acts like `*`
+                        if rep_body && i > 0 && e[i..].iter().any(unbounded_depth) {
+                            let mut v = vec![Tok::Zom { lazy: false }];
+                            v.extend(out[i..].iter().cloned());
+                            return v;
+                        }
                         break;
                     }
                 },
@@ -438,16 +446,19 @@ pub fn widen_tail(e: &Expr) -> Expr {
                 _ => {
                     // bounded leaf: the scan stops here; unless the scanned part has unbounded
                     // depth, wax yields a zero term for this concatenation
-                    let _ = first;
                     if nested && !e[i + 1..].iter().any(unbounded_depth) {
                         return vec![Tok::Zom { lazy: false }];
+                    }
+                    if rep_body && i + 1 < e.len() {
+                        let mut v = vec![Tok::Zom { lazy: false }];
+                        v.extend(out[i + 1..].iter().cloned());
+                        return v;
                     }
                     break;
                 },
             }
-            first = false;
         }
         out
     }
-    go(e, false)
+    go(e, false, false)
 }
